@@ -81,6 +81,10 @@ def configs(tier, seed):
     cfgs.append(dict(name="start point of A on B, dy=0", kind="translate", floats=True, fixed=["dy", "0"],
                      VA=[["2", "2"], ["2", "0"], ["0", "0"]], KA=["1", "2", "3"],
                      VB=[["1", "2"], ["3", "2"]], KB=["0", "1"], dxrange=["-1/2", "1/2"], endpoint=["1", "1/2", "-1/2"]))
+    # both curves start at the same point, at parameter 0 of both (the pair (0, 0))
+    cfgs.append(dict(name="common start point at parameters (0, 0)", kind="translate", floats=True, fixed=["dy", "0"],
+                     VA=[["0", "0"], ["2", "0"], ["2", "2"]], KA=["0", "1", "2"], VB=[["0", "0"], ["0", "2"], ["-2", "2"]], KB=["0", "1", "2"],
+                     dxrange=["0", "0"], endpoint=["0", "0", "0"]))
     # long parameter intervals (one knot span of length 10, a negative start): the answer may not depend on the parametrisation
     cfgs.append(dict(name="long parameter intervals, dy=0", kind="translate", floats=True, fixed=["dy", "0"],
                      VA=[["0", "0"], ["2", "0"]], KA=["0", "10"], VB=[["1", "-1"], ["1", "1"]], KB=["-7", "3"], dxrange=["-1/2", "1/2"]))
